@@ -16,6 +16,26 @@ Ltac case_if :=
   | |- context [if ?b then _ else _] => destruct b eqn:?
   end.
 
+(* conditions that are conjunctions / disjunctions / negations of comparisons (a refactoring may merge nested ifs): as
+   propositions *)
+Ltac bool2prop :=
+  repeat match goal with
+         | H : (_ && _)%bool = true |- _ => apply andb_prop in H; destruct H
+         | H : (_ && _)%bool = false |- _ => apply Bool.andb_false_iff in H; destruct H
+         | H : (_ || _)%bool = true |- _ => apply Bool.orb_true_iff in H; destruct H
+         | H : (_ || _)%bool = false |- _ => apply Bool.orb_false_iff in H; destruct H
+         | H : negb _ = true |- _ => apply Bool.negb_true_iff in H
+         | H : negb _ = false |- _ => apply Bool.negb_false_iff in H
+         | H : (_ <? _)%Z = true |- _ => apply Z.ltb_lt in H
+         | H : (_ <? _)%Z = false |- _ => apply Z.ltb_ge in H
+         | H : (_ <=? _)%Z = true |- _ => apply Z.leb_le in H
+         | H : (_ <=? _)%Z = false |- _ => apply Z.leb_gt in H
+         | H : (_ =? _)%Z = true |- _ => apply Z.eqb_eq in H
+         | H : (_ =? _)%Z = false |- _ => apply Z.eqb_neq in H
+         | H : String.eqb _ _ = true |- _ => apply String.eqb_eq in H
+         | H : String.eqb _ _ = false |- _ => apply String.eqb_neq in H
+         end.
+
 Lemma validate_config_iff :
   forall c, dur_in_range c -> (validate_config c = None <-> valid_spec c).
 Proof.
@@ -23,7 +43,7 @@ Proof.
   unfold validate_config, valid_spec.
   rewrite ?wrap_mul3, ?wrap_mul2 by exact Hr.
   cbv zeta.
-  repeat case_if; split; intro HH; try discriminate; try reflexivity;
+  repeat case_if; bool2prop; split; intro HH; try discriminate; try reflexivity;
     try (exfalso; intuition (try congruence; try lia); fail);
     intuition (try congruence; try lia).
 Qed.
@@ -35,7 +55,7 @@ Proof.
   unfold validate_config.
   rewrite ?wrap_mul3, ?wrap_mul2 by exact Hr.
   cbv zeta.
-  repeat case_if; intro HH; inversion HH; subst f; unfold field_violated; simpl String.eqb; cbv iota; try lia; try (split; [congruence|lia]); try (split; lia); auto.
+  repeat case_if; bool2prop; intro HH; inversion HH; subst f; unfold field_violated; simpl String.eqb; cbv iota; try lia; try (split; [congruence|lia]); try (split; lia); auto.
 Qed.
 
 (** Non-vacuity: a concrete valid configuration, and a concrete rejected one. *)
